@@ -163,6 +163,8 @@ fn particle(voc: &Vocab, p: &Value, ind: usize, out: &mut String) {
                 _ => "all",
             };
             out.push_str(&format!("{pad}<xs:{tag}{}>\n", occ(p)));
+            // `doc`: an xs:annotation as first child of the group (allowed by XSD in every model group)
+            out.push_str(&doc_el(voc, p, &" ".repeat(ind + 2)));
             for c in arr(p, "ps") {
                 particle(voc, c, ind + 2, out);
             }
@@ -192,6 +194,13 @@ fn complex_body(voc: &Vocab, c: &Value, ind: usize, out: &mut String) {
     let has_base = c.get("base").is_some_and(|b| b.get("k").is_some());
     if has_base {
         out.push_str(&format!("{pad}<xs:complexContent>\n{pad}  <xs:extension base=\"{}\">\n", xml_esc(&qname(voc, &c["base"]))));
+        // `ext_doc`: an xs:annotation as first child of xs:extension
+        if let Some(d) = s(c, "ext_doc") {
+            out.push_str(&format!(
+                "{pad}    <xs:annotation><xs:documentation>{}</xs:documentation></xs:annotation>\n",
+                xml_esc_text(&voc.text(d))
+            ));
+        }
         for p in arr(c, "content") {
             particle(voc, p, ind + 4, out);
         }
@@ -385,7 +394,23 @@ fn wsdl_file(voc: &Vocab, f: &Value, all: &[Value]) -> String {
     let bn = s(w, "binding").unwrap_or("BindT");
     // `second_binding`: "before" | "after" - a SOAP 1.2 binding of the same port type next to the SOAP 1.1 one (what
     // .NET and many other stacks publish); `port12_first`: its port is the first port of the service
-    let binding = |name: &str, sp: &str| -> String {
+    // `legacy_binding`: "before" | "after" - another SOAP 1.1 binding of the same port type that NO port of the service
+    // refers to and that binds the body part only (no soap:header): it must not replace the binding the service uses
+    let body_only = |io: &Value| -> Value {
+        let mname = s(io, "msg").unwrap_or("");
+        let named: Vec<&str> = arr(io, "headers").iter().filter_map(|h| s(h, "part")).collect();
+        let body = io.get("parts").and_then(Value::as_str).map(str::to_string).or_else(|| {
+            arr(w, "messages")
+                .iter()
+                .find(|m| s(m, "n") == Some(mname) || s(m, "name") == Some(mname))
+                .and_then(|m| arr(m, "parts").iter().filter_map(|p| s(p, "n").or_else(|| s(p, "name"))).find(|p| !named.contains(p)).map(str::to_string))
+        });
+        match body {
+            Some(b) => serde_json::json!({"msg": mname, "parts": b, "headers": []}),
+            None => serde_json::json!({"msg": mname, "headers": []}),
+        }
+    };
+    let binding_of = |name: &str, sp: &str, legacy: bool| -> String {
         let mut out = format!(
             "  <wsdl:binding name=\"{}\" type=\"tns:{}\">\n    <{sp}:binding style=\"document\" transport=\"http://schemas.xmlsoap.org/soap/http\"/>\n",
             xml_esc(name),
@@ -397,24 +422,41 @@ fn wsdl_file(voc: &Vocab, f: &Value, all: &[Value]) -> String {
                 Some(Value::String(a)) => out.push_str(&format!("      <{sp}:operation soapAction=\"{}\"/>\n", xml_esc(&voc.text(a)))),
                 _ => out.push_str(&format!("      <{sp}:operation soapAction=\"\"/>\n")),
             }
-            soap_io_p(voc, "input", &o["input"], sp, &mut out);
+            if legacy {
+                soap_io_p(voc, "input", &body_only(&o["input"]), sp, &mut out);
+            } else {
+                soap_io_p(voc, "input", &o["input"], sp, &mut out);
+            }
             if let Some(om) = o.get("output").filter(|x| !x.is_null()) {
-                soap_io_p(voc, "output", om, sp, &mut out);
+                if legacy {
+                    soap_io_p(voc, "output", &body_only(om), sp, &mut out);
+                } else {
+                    soap_io_p(voc, "output", om, sp, &mut out);
+                }
             }
             out.push_str("    </wsdl:operation>\n");
         }
         out.push_str("  </wsdl:binding>\n");
         out
     };
+    let binding = |name: &str, sp: &str| binding_of(name, sp, false);
     let b11 = voc.name_xml(bn);
     let b12 = format!("{b11}12");
     let second = s(w, "second_binding");
+    let legacy = s(w, "legacy_binding");
+    let blegacy = format!("{b11}Legacy");
+    if legacy == Some("before") {
+        out.push_str(&binding_of(&blegacy, "soap", true));
+    }
     if second == Some("before") {
         out.push_str(&binding(&b12, "soap12"));
     }
     out.push_str(&binding(&b11, "soap"));
     if second == Some("after") {
         out.push_str(&binding(&b12, "soap12"));
+    }
+    if legacy == Some("after") {
+        out.push_str(&binding_of(&blegacy, "soap", true));
     }
     let sn = s(w, "service").unwrap_or("Svc");
     let addr = s(w, "address").map_or("http://127.0.0.1:1/svc".to_string(), |a| voc.text(a));
